@@ -30,7 +30,7 @@ def proved_cov_bound(et, n, xi, xj, mi, mj, dof):
 
 class C08(Prop):
     id = "C08"
-    imports = ["Run.RunCov"]
+    imports = ["Run.RunCov", "Run.RunPearson", "Run.RunWelford"]
     coq_batch = 25
     rule = ("2-D arrays of 1..8 variables x 2..64 observations (quick: up to 24), f64 and f32, ddof in {0, 1, fractional < n}, "
             "data styles incl. large common offset, not exactly representable values and (every fourth case) an extreme common "
@@ -40,7 +40,8 @@ class C08(Prop):
             "independent Fraction oracle re-checks it together with symmetry, diagonal >= 0, and for pearson: diagonal 1, "
             "range [-1,1], cov/(sigma sigma), affine invariance and sign flip (each up to roundoff). Non-trivial: >= 2 "
             "variables and >= 3 observations.")
-    correspondences = {"cov": "corr:C08/cov/entrywise-bound-against-exact-model", "pearson_correlation": "corr:C08/pearson/(oracle, relational)"}
+    correspondences = {"cov": "corr:C08/cov/entrywise-bound-against-exact-model", "pearson_correlation": "corr:C08/pearson/entrywise-proved-bound-against-exact-rho (small matrices) + oracle",
+                       "nd_std_axis": "corr:C08/ndarray-std_axis/bits (the Welford model the Pearson theorems rest on)"}
     trusted_base = ["ndarray mean_axis / dot (matrixmultiply) / std_axis: their operation order (possibly FMA kernels) is not modelled; entries are compared through a bound, not bit for bit"]
     assumptions = ["cov (f64): the entrywise bound is the one proved in Num/CovF64.v; f32: the same expression with binary32 constants (analogue, not proved); pearson: tolerances ASSUMED", "each variable non-constant for correlation"]
 
@@ -79,7 +80,14 @@ class C08(Prop):
             grp = "g%d" % rep
             yield mk_num_case("cov", et, [([k, n], flat, lay)], dd, ddof=ddof, k=k, n=n, grp=grp, role="base")
             yield mk_num_case("cov", et, [([k, n], flat, lay)], enc_vals(et, [0.0])[0], ddof=0.0, k=k, n=n, grp=grp, role="cov0")
-            yield mk_num_case("pearson_correlation", et, [([k, n], flat, lay)], "", k=k, n=n, grp=grp, role="base")
+            pc = mk_num_case("pearson_correlation", et, [([k, n], flat, lay)], "", k=k, n=n, grp=grp, role="base")
+            # small matrices of ordinary magnitude are also checked entry by entry against the PROVED bound
+            # (Props/C08_f64_pearson.v), evaluated exactly over Q inside Coq (about a second per entry)
+            pc.proved_check = (et == "f64" and rep % 4 != 3 and style in (0, 1, 5) and k <= 3 and n <= 8)
+            yield pc
+            if et == "f64":
+                # ndarray's own std_axis on the same rows, against the Welford model (bit for bit)
+                yield mk_num_case("nd_std_axis", "f64", [([k, n], flat, lay)], "", k=k, n=n, grp=grp, role="nd_std")
             if k >= 2:
                 a, b = rng.range(1, 9) / 2.0, rng.range(-8, 8) / 4.0
                 if rep % 4 == 3:
@@ -89,6 +97,23 @@ class C08(Prop):
                 neg = [[-v for v in rows[0]]] + rows[1:]
                 yield mk_num_case("pearson_correlation", et, [([k, n], [v for r in resc for v in r], lay)], "", k=k, n=n, grp=grp, role="affine")
                 yield mk_num_case("pearson_correlation", et, [([k, n], [v for r in neg for v in r], lay)], "", k=k, n=n, grp=grp, role="neg")
+
+        # small matrices of ordinary magnitude: every entry of pearson_correlation against the PROVED binary64 bound
+        # (C08_pearson_check_sound), the exact correlation and the bound evaluated over Q inside Coq
+        for rep in range(6 if tier == "quick" else 80):
+            k = rng.range(2, 3)
+            n = rng.range(3, 7)
+            style = rng.choice([0, 1, 5])
+            rows = [float_pool(style, n, rng, "f64") for _ in range(k)]
+            for r in rows:
+                if len(set(r)) < 3:
+                    r[0], r[1] = r[0] + 1.0, r[1] - 0.5
+            flat = [v for r in rows for v in r]
+            lay = rng.choice(zoo([k, n], rng, 2))
+            pc = mk_num_case("pearson_correlation", "f64", [([k, n], flat, lay)], "", k=k, n=n, grp="s%d" % rep, role="base")
+            pc.proved_check = True
+            yield pc
+            yield mk_num_case("nd_std_axis", "f64", [([k, n], flat, lay)], "", k=k, n=n, grp="s%d" % rep, role="nd_std")
 
     def parse(self, case):
         parse_num(case)
@@ -102,6 +127,8 @@ class C08(Prop):
         o = case.obs
         et = case.et
         fp = FP(et)
+        if case.routine == "nd_std_axis":
+            return []       # not a routine of ndarray-stats: observed only to tie the Welford model to ndarray
         if o["tag"] != "OK":
             return ["error: %s on non-empty input" % o]
         k, n = case.k, case.n
@@ -182,7 +209,22 @@ class C08(Prop):
         return out
 
     def chk_term(self, case):
-        if case.routine != "cov" or case.et != "f64" or case.obs["tag"] != "OK":
+        if case.obs["tag"] != "OK":
+            return None
+        if case.routine == "nd_std_axis":
+            rows = self._rows(case)
+            rl = "[" + ";".join(zlist(model_ints("f64", r)) for r in rows) + "]"
+            return "chk_nd_std %s %s" % (rl, zlist(case.obs["vals"]))
+        if case.routine == "pearson_correlation" and getattr(case, "proved_check", False):
+            k = case.k
+            rows = self._rows(case)
+            rl = "[" + ";".join(zlist(model_ints("f64", r)) for r in rows) + "]"
+            v = case.obs["vals"]
+            if len(v) != k * k:
+                return "false"
+            il = "[" + ";".join(zlist(v[i * k:(i + 1) * k]) for i in range(k)) + "]"
+            return "m_pearson_check %s %s" % (rl, il)
+        if case.routine != "cov" or case.et != "f64":
             return None
         k, n = case.k, case.n
         rows = self._rows(case)
